@@ -308,5 +308,6 @@ def install_noise():
                 return HW.WANoiseProtocolHandshakeWorker._coop_orig_start(self)
             t = c.spawn(self.run)
             t.worker = self
+            c.yield_()          # starting a thread is a scheduling point: the new thread may run before start() returns
             return None
         HW.WANoiseProtocolHandshakeWorker.start = start
